@@ -1088,8 +1088,17 @@ func (vc *FuncVC) ifaceID(t types.Type) Term {
 // type's method set satisfies the interface (decided by go/types).
 func (vc *FuncVC) implementsFacts() []string {
 	var out []string
+	// reflect.Kind of every concrete type met (used by dynkind)
+	if vc.funcDecl[sym("kindOfTag")] {
+		for cid, ct := range vc.concreteTypes {
+			if k := reflectKind(ct); k > 0 {
+				out = append(out, fmt.Sprintf("(assert (= (|kindOfTag| %d) %d))", cid, k))
+			}
+		}
+	}
 	if len(vc.ifaceTypes) == 0 {
-		return nil
+		sort.Strings(out)
+		return out
 	}
 	f := vc.declFun("implements", []string{SInt, SInt}, SBool)
 	for cid, ct := range vc.concreteTypes {
@@ -1126,6 +1135,68 @@ func (vc *FuncVC) implementsFacts() []string {
 	}
 	sort.Strings(out)
 	return out
+}
+
+// reflectKind: the reflect.Kind number of a Go type (0: not modelled).
+func reflectKind(t types.Type) int {
+	switch u := t.Underlying().(type) {
+	case *types.Basic:
+		switch u.Kind() {
+		case types.Bool:
+			return 1
+		case types.Int:
+			return 2
+		case types.Int8:
+			return 3
+		case types.Int16:
+			return 4
+		case types.Int32:
+			return 5
+		case types.Int64:
+			return 6
+		case types.Uint:
+			return 7
+		case types.Uint8:
+			return 8
+		case types.Uint16:
+			return 9
+		case types.Uint32:
+			return 10
+		case types.Uint64:
+			return 11
+		case types.Uintptr:
+			return 12
+		case types.Float32:
+			return 13
+		case types.Float64:
+			return 14
+		case types.Complex64:
+			return 15
+		case types.Complex128:
+			return 16
+		case types.String:
+			return 24
+		case types.UnsafePointer:
+			return 26
+		}
+	case *types.Array:
+		return 17
+	case *types.Chan:
+		return 18
+	case *types.Signature:
+		return 19
+	case *types.Interface:
+		return 20
+	case *types.Map:
+		return 21
+	case *types.Pointer:
+		return 22
+	case *types.Slice:
+		return 23
+	case *types.Struct:
+		return 25
+	}
+	return 0
 }
 
 // subsumes: every method of j is a method of i with an identical signature.
